@@ -79,6 +79,7 @@ def run(ctx):
 
     # ---- which of the known defects does this tree still have? (the spec models the code as it is)
     probe = engine(ctx, binary, "TestCrashProbe", {}, timeout=900)
+    ctx.absorb(probe, "crash", "TestCrashProbe")   # directed replays of the confirmed defects
     faithful = {s: bool(probe.get("stats", {}).get(s, False)) for s in SWITCHES}
     repaired = {s: True for s in SWITCHES}
     ctx.coverage["switches_probed_on_code"] = faithful
